@@ -47,6 +47,13 @@ def verify(prop, k):
     s = sh(f"/venv/bin/python {VERIF}/tools/baseline.py {wt}")
     out["suite_with_patch"] = s.stdout.strip().splitlines()[-3:]
     out["suite_ok"] = s.returncode == 0
+    missing = [ln.split("MISSING", 1)[1].strip() for ln in s.stdout.splitlines() if "MISSING" in ln]
+    if not out["suite_ok"] and missing and all("test_performance" in m for m in missing):
+        # wall-clock assertions fail when many suites run at once: repeat just those tests alone
+        t = sh(f"cd {wt} && PYTHONPATH={wt} /venv/bin/python -m pytest -q -p no:cacheprovider --no-cov tests/integration/test_performance.py 2>&1 | tail -3")
+        out["timing_tests_rerun_alone"] = t.stdout.strip().splitlines()[-1:]
+        if " passed" in t.stdout and " failed" not in t.stdout:
+            out["suite_ok"] = True
     sh(f"git -C {wt} checkout -- .")
     out["confirmed"] = rc0 == 0 and rc1 != 0 and out["suite_ok"]
     (d / "verify.json").write_text(json.dumps(out, indent=1))
